@@ -17,7 +17,7 @@ CONSTANTS Part,        \* "filter" | "expiry" | "both"
 VARIABLES c, ex, hist
 vars == <<c, ex, hist>>
 
-Start == [kind |-> "start", acl |-> "none", groups |-> <<>>]
+Start == [kind |-> "start", acl |-> "none", prior |-> "na", groups |-> <<>>]
 ExStart == [cfg |-> [mode |-> "none", ttl |-> "none", down |-> "none"], ph |-> "before", store |-> "has", idc |-> "none", rpc |-> "up"]
 
 (* ----- fact combinations per rule ----- *)
@@ -59,8 +59,10 @@ AclLevels(kind) == IF kind \in AclKinds THEN {"none", "read", "write"}
 Heads(kind) == IF Headed(kind) THEN {"ok", "no", "nil"} ELSE {"na"}
 DynKeys == <<"p1", "p2", "p3", "p4">>
 
-NewCase(kind, acl, hd) ==
-  [kind |-> kind, acl |-> acl, groups |-> [i \in DOMAIN Keys(kind) |-> [key |-> Keys(kind)[i], hd |-> hd, items |-> <<>>]]]
+\* prior: ResultsFilteredByACLs on entry (a re-used reply of a blocking query may carry "yes")
+Priors(kind) == IF HasFlag(kind) THEN {"no", "yes"} ELSE {"na"}
+NewCase(kind, acl, hd, prior) ==
+  [kind |-> kind, acl |-> acl, prior |-> prior, groups |-> [i \in DOMAIN Keys(kind) |-> [key |-> Keys(kind)[i], hd |-> hd, items |-> <<>>]]]
 
 \* index of the last group that has items (0: none); elements are appended there or later => one path per response
 Cursor(groups) == IF \E i \in DOMAIN groups : groups[i].items # <<>>
@@ -76,7 +78,7 @@ WithSubs(kind, e) == IF SubRules(kind) = <<>> THEN e ELSE [e EXCEPT !.subs = <<<
 
 FilterNext ==
   \/ /\ c = Start
-     /\ \E kind \in AllKinds : \E acl \in AclLevels(kind) : \E hd \in Heads(kind) : c' = NewCase(kind, acl, hd)
+     /\ \E kind \in AllKinds : \E acl \in AclLevels(kind) : \E hd \in Heads(kind) : \E pr \in Priors(kind) : c' = NewCase(kind, acl, hd, pr)
   \/ /\ c # Start /\ Size(c) < Limit(c.kind)
      /\ \/ \* a fresh element in the cursor group or a later one (for map types: the last entry only)
            \E gi \in DOMAIN c.groups :
@@ -127,7 +129,17 @@ Out == RefOut(c.kind, c.acl, In)
 
 (* ----- properties on the model ----- *)
 \* the reference filter satisfies the four predicates for every arrangement and raises the flag iff it removed something
-InvRefConforms == c = Start \/ Judge(c.kind, c.acl, In, Out, RefFlag(c.kind, c.acl, In)) = {}
+InvRefConforms == c = Start \/ Judge(c.kind, c.acl, In, Out, c.prior, RefFlag(c.kind, c.acl, In)) = {}
+\* the specified flag does not depend on the flag's value on entry; assignment conforms, raise-only is exactly the
+\* conforming flag OR the prior value (so it is wrong precisely when prior = "yes" and nothing is removed)
+InvFlagIgnoresPrior ==
+  (c # Start /\ HasFlag(c.kind)) =>
+     LET removed == Removed(c.kind, In, Out) /\ ~SilentOnly(c.kind, c.acl, In, Out)
+         yn(b) == IF b THEN "yes" ELSE "no"
+     IN /\ \A pr \in {"no", "yes"} : Judge(c.kind, c.acl, In, Out, pr, RefFlag(c.kind, c.acl, In)) = {}
+        /\ yn(FlagAssigned(c.prior = "yes", removed)) = RefFlag(c.kind, c.acl, In)
+        /\ (Removed(c.kind, In, Out) \/ c.prior = "no" \/
+              Judge(c.kind, c.acl, In, Out, c.prior, yn(FlagRaiseOnly(c.prior = "yes", removed))) = {"FlagNotStale"})
 \* the predicates are not vacuous: dropping / adding / swapping / mis-flagging is rejected
 InvPredicatesBite ==
   c = Start \/ c.groups = <<>> \/
@@ -136,14 +148,14 @@ InvPredicatesBite ==
       rest(o) == [i \in DOMAIN Out |-> IF i = 1 THEN o ELSE Out[i]]
       flag == RefFlag(c.kind, c.acl, In)
   IN /\ (Len(o1.items) > 0 /\ Rule(c.kind, g1.key) # "match" =>
-           "NothingDropped" \in Judge(c.kind, c.acl, In, rest([o1 EXCEPT !.items = Tail(@)]), flag))
+           "NothingDropped" \in Judge(c.kind, c.acl, In, rest([o1 EXCEPT !.items = Tail(@)]), c.prior, flag))
      /\ (Len(o1.items) < Len(g1.items) /\ ~HeadGone(c.kind, g1) /\ Rule(c.kind, g1.key) # "match" =>
            "NothingUnreadable" \in Judge(c.kind, c.acl, In, rest([o1 EXCEPT !.items =
-                 [i \in DOMAIN g1.items |-> [lab |-> g1.items[i].lab, tok |-> "na", subs |-> <<>>]]]), flag))
-     /\ (HasFlag(c.kind) => ("FlagExact" \in Judge(c.kind, c.acl, In, Out, IF flag = "yes" THEN "no" ELSE "yes")
+                 [i \in DOMAIN g1.items |-> [lab |-> g1.items[i].lab, tok |-> "na", subs |-> <<>>]]]), c.prior, flag))
+     /\ (HasFlag(c.kind) => ({"FlagExact", "FlagNotStale"} \cap Judge(c.kind, c.acl, In, Out, c.prior, IF flag = "yes" THEN "no" ELSE "yes") # {}
                             \/ (SilentOnly(c.kind, c.acl, In, Out) /\ Removed(c.kind, In, Out))))
      /\ (Len(o1.items) >= 2 /\ o1.items[1].lab # o1.items[2].lab /\ Ordered(c.kind) /\ Rule(c.kind, g1.key) # "match" =>
-           "OrderPreserved" \in Judge(c.kind, c.acl, In, rest([o1 EXCEPT !.items = <<o1.items[2], o1.items[1]>> \o SubSeq(o1.items, 3, Len(o1.items))]), flag))
+           "OrderPreserved" \in Judge(c.kind, c.acl, In, rest([o1 EXCEPT !.items = <<o1.items[2], o1.items[1]>> \o SubSeq(o1.items, 3, Len(o1.items))]), c.prior, flag))
 \* the loops of the code refine the declarative filter (splice-in-place, collect, span compaction), top level and leaves
 InvLoopsRefine ==
   c = Start \/
